@@ -940,6 +940,29 @@ pub fn f7_curated() -> Vec<Def> {
     mk(true, vec![Pat::regex("(a|bc)*d", 0)]);
     mk(false, vec![Pat::regex("([0-9]|x[a-f])*;", 0)]);
     mk(true, vec![Pat::regex("(a|bc)*d", 0), Pat::regex("(a|bc)*e", 0)]);
+    // more than 32 (and more than 40) distinct fast-loop classes and look-up-table tests in one definition: one pattern
+    // per opening byte, each looping over its own class - single ranges, and classes made of two and three ranges
+    {
+        let openers = "ABCDEFGHIJKLMNOPQRSTUVWXYZ!@#%&=;:<>?~^|";
+        for (utf8, multi) in [(true, false), (false, true), (true, true)] {
+            let mut pats = vec![];
+            for (i, o) in openers.chars().enumerate() {
+                let x = (b'a' + (i % 5) as u8) as char;
+                let y = (b'f' + (i / 5) as u8) as char;
+                let class = if multi {
+                    let d = (b'0' + (i % 10) as u8) as char;
+                    if i % 3 == 0 { format!("[{x}-{y}0-{d}_]") } else { format!("[{x}-{y}0-{d}]") }
+                } else {
+                    format!("[{x}-{y}]")
+                };
+                let mut esc = String::new();
+                escape_char(o, &mut esc);
+                pats.push(Pat::regex(&format!("{esc}{class}+"), 0));
+            }
+            pats.push(Pat::skip(" +"));
+            mk(utf8, pats);
+        }
+    }
     // early accept (byte mode, all 256 edges), kept late accept
     mk(false, vec![Pat::regex("a(?s-u:.)", 0), Pat::token("b", 0)]);
     mk(false, vec![Pat::regex("(?s-u:.)", 0).prio(1), Pat::regex("ab+", 0)]);
